@@ -94,6 +94,7 @@ class Ev:
         e.qdepth = getattr(self, 'qdepth', 0)
         e.qinfo = getattr(self, 'qinfo', None)
         e.name_st = getattr(self, 'name_st', None)
+        e.prev_state = getattr(self, 'prev_state', None)
         e.last_resort = getattr(self, 'last_resort', None) if kw.get('resolver', self.resolver) is not None else None
         return e
 
@@ -853,6 +854,17 @@ class Ev:
         # local variables of the function keep denoting their current values inside old():
         # only the heap is the old one
         sub.name_st = getattr(self, 'name_st', None) or self.st
+        return sub.ev(args[0])
+
+    def fn_prev(self, args):
+        """prev(e), in a `loop k step` clause: e as it was at the loop head when the iteration that
+        has just finished began (variables and memory alike)"""
+        ps = getattr(self, 'prev_state', None)
+        if ps is None:
+            raise SpecError('prev() outside a loop step clause')
+        sub = self.sub(st=ps.with_sink(self.st))
+        sub.name_st = None
+        sub.prev_state = None
         return sub.ev(args[0])
 
     def fn_len(self, args):
